@@ -168,6 +168,42 @@ impl Scenario for C17 {
         }
         // long tables: page and scroll through them
         // (decided below, once the number of aircraft is known)
+        // bursts: a key auto-repeating at 30 Hz, a window being dragged (a resize
+        // every few milliseconds) while typing, text pasted into the prompt
+        if rng.chance(0.08) {
+            let mut t = rng.below(span_ns);
+            match rng.below(3) {
+                0 => {
+                    let ev = gen_ev(rng, true);
+                    for _ in 0..rng.usize(20, 120) {
+                        events.push(TimedEv { at_ns: t, ev: ev.clone() });
+                        t += 33_000_000;
+                    }
+                }
+                1 => {
+                    for _ in 0..rng.usize(10, 60) {
+                        events.push(TimedEv { at_ns: t, ev: Ev::Resize(rng.range(1, 200) as u16, rng.range(1, 60) as u16) });
+                        t += rng.range(1_000_000, 8_000_000);
+                        if rng.chance(0.5) {
+                            events.push(TimedEv { at_ns: t, ev: gen_ev(rng, true) });
+                        }
+                    }
+                }
+                _ => {
+                    events.push(TimedEv { at_ns: t, ev: Ev::Ch('/') });
+                    for ch in "SIM0\x1b[200~ two lines\nq/jk  \t(AF?".chars() {
+                        t += 100_000;
+                        let ev = match ch {
+                            '\n' => Ev::Enter,
+                            '\x1b' => Ev::Esc,
+                            '\t' => Ev::Tab,
+                            c => Ev::Ch(c),
+                        };
+                        events.push(TimedEv { at_ns: t, ev });
+                    }
+                }
+            }
+        }
         // the wall clock is stepped backwards or forwards while rows are displayed
         if rng.chance(0.15) {
             for _ in 0..rng.usize(1, 2) {
